@@ -680,8 +680,8 @@ class DestHandler:
             # The EOF PDU was already received: The whole file is tracked as lost and will be
             # re-requested together with the metadata by the deferred lost segment procedure.
             return
-        self._params.fp.progress = fd_pdu.offset + len(fd_pdu.file_data)
         if len(fd_pdu.file_data) > 0:
+            self._params.fp.progress = fd_pdu.offset + len(fd_pdu.file_data)
             start = fd_pdu.offset
             if first_pdu:
                 start = 0
